@@ -65,6 +65,9 @@ pub struct TaskSpec {
     pub no_pipeline: bool,
     pub validate_layout: bool,
     pub source_info: bool,
+    /// Compile twice through rssl's own `[(name, contents); N]` handler, handing it the same
+    /// table both times; the result text holds both outcomes
+    pub caller_table: bool,
     pub faults: Vec<Fault>,
     pub heap_noise: u32,
     /// tasks whose outcome the oracle judges (the others are history / bystanders)
@@ -84,6 +87,7 @@ impl TaskSpec {
             no_pipeline: false,
             validate_layout: false,
             source_info: false,
+            caller_table: false,
             faults: Vec::new(),
             heap_noise: 0,
             subject: true,
@@ -149,6 +153,9 @@ impl TaskSpec {
         if self.source_info {
             j.set("source_info", Json::Bool(true));
         }
+        if self.caller_table {
+            j.set("caller_table", Json::Bool(true));
+        }
         if !self.faults.is_empty() {
             j.set(
                 "faults",
@@ -192,6 +199,7 @@ impl TaskSpec {
             no_pipeline: j.gb("no_pipeline"),
             validate_layout: j.gb("validate_layout"),
             source_info: j.gb("source_info"),
+            caller_table: j.gb("caller_table"),
             faults,
             heap_noise: j.gu("heap_noise") as u32,
             subject: j.get("subject").and_then(|b| b.bool()).unwrap_or(true),
@@ -552,6 +560,9 @@ fn run_api(task: &TaskSpec, fs: &mut SimFs) -> (OutcomeKind, String, String) {
         .iter()
         .map(|(a, b)| (a.as_str(), b.as_str()))
         .collect();
+    if task.caller_table && task.api == Api::Compile {
+        return run_caller_table(task, fs.spec, &defines);
+    }
     match task.api {
         Api::Compile => {
             let mut args = rssl::CompileArgs::new(&task.entry, fs, task.target.real())
@@ -603,6 +614,59 @@ fn run_api(task: &TaskSpec, fs: &mut SimFs) -> (OutcomeKind, String, String) {
             }
         }
     }
+}
+
+/// The caller's side of rssl's built-in table handler: a table of eight entries in which the
+/// entry file's includes may appear twice (an override in front of a default - the first match
+/// counts), compiled twice. The table is the caller's variable; what the second compile sees is
+/// whatever the first one left in it.
+fn run_caller_table(task: &TaskSpec, spec: &FsSpec, defines: &[(&str, &str)]) -> (OutcomeKind, String, String) {
+    let mut owned: Vec<(String, String)> = Vec::new();
+    for (name, text) in &spec.files {
+        if name != &task.entry && owned.len() < 2 {
+            // an override in front of the default
+            owned.push((name.clone(), format!("// override\n{text}")));
+        }
+    }
+    for (name, text) in &spec.files {
+        owned.push((name.clone(), text.clone()));
+    }
+    owned.truncate(8);
+    while owned.len() < 8 {
+        owned.push((format!("pad{}.h", owned.len()), String::new()));
+    }
+    let mut table: [(&str, &str); 8] = [("", ""); 8];
+    for (i, (n, t)) in owned.iter().enumerate() {
+        table[i] = (n.as_str(), t.as_str());
+    }
+    let mut outcomes: Vec<(OutcomeKind, String)> = Vec::new();
+    for _ in 0..2 {
+        let mut args = rssl::CompileArgs::new(&task.entry, &mut table, task.target.real())
+            .defines(defines)
+            .support_buffer_address(task.buffer_address)
+            .pipeline_name(task.pipeline.as_deref())
+            .source_info(task.source_info)
+            .validate_layout_consistency(task.validate_layout);
+        if task.no_pipeline {
+            args = args.no_pipeline_mode();
+        }
+        outcomes.push(match rssl::compile(args) {
+            Ok(p) => (OutcomeKind::Ok, serialise_ok(&p)),
+            Err(e) => (OutcomeKind::Err, format!("Err\n{e}")),
+        });
+    }
+    let kind = outcomes[1].0.clone();
+    let same = outcomes[0] == outcomes[1];
+    (
+        kind,
+        format!(
+            "{}\n=== second compile of the same table: {} ===\n{}",
+            outcomes[0].1,
+            if same { "identical" } else { "DIFFERENT" },
+            if same { "" } else { outcomes[1].1.as_str() }
+        ),
+        String::new(),
+    )
 }
 
 fn run_task(task: &TaskSpec, fss: &[FsSpec], yield_hook: Option<&dyn Fn()>) -> TaskResult {
